@@ -80,6 +80,7 @@ package jsonata
 //@   requires nn(node)
 //@   ensures r1 != nil ==> !valid(r0)
 //@   ensures (r1 == nil && valid(r0)) ==> canif(r0)
+//@   ensures (r1 == nil && valid(r0) && typeis(node, "*jparse.ArrayNode")) ==> arrKind(kind(res(r0)))
 //@   assigns heap
 //@   trusted
 
@@ -217,6 +218,123 @@ package jsonata
 //@   ensures [C03:no-else] (ret("eval#0", 1) == nil && !ufb_truthy(ret("eval#0", 0)) && node.Else == nil) ==> (!valid(r0) && r1 == nil)
 //@   atcall[C03:lazy-then] eval#1 requires ufb_truthy(ret("eval#0", 0)) && callee_node == node.Then
 //@   atcall[C03:lazy-else] eval#2 requires !ufb_truthy(ret("eval#0", 0)) && callee_node == node.Else
+
+// --- C01: paths ------------------------------------------------------------------------------------------------
+// Statement: a path maps each step over the items of the previous step's result (array context: its members; other
+// context: itself), flattens array-valued step results one level, drops absent values, keeps array-constructor steps
+// as units; no items = 'no value', exactly one item = that item unless the path carries the keep-array marker; a path
+// that starts with $, $$ or a variable is anchored at that value instead of mapping over it.
+//
+// Result sequences: the normalisation rule is sequence.Value.
+//@ func newSequence
+//@   props C01 C02 C09 C10
+//@   requires 0 <= size
+//@   ensures result != nil && fresh(result) && len(result.values) == 0 && !result.keepSingletons && fresh(result.values)
+//@   assigns nothing
+//@ func (*sequence).Len
+//@   props C01 C09
+//@   requires s != nil
+//@   ensures result == len(s.values)
+//@   assigns nothing
+//@ func (*sequence).Append
+//@   props C01 C09
+//@   precise-append
+//@   requires s != nil
+//@   ensures len(s.values) == old(len(s.values)) + 1 && s.values[old(len(s.values))] == v && s.keepSingletons == old(s.keepSingletons)
+//@   ensures forall k in [0, old(len(s.values))): s.values[k] == old(s.values[k])
+//@   assigns s.values, elems(s.values)
+//@ func (sequence).Value
+//@   props C01 C09 C10
+//@   ensures [C01:no-items-no-value] len(s.values) == 0 ==> !valid(result)
+//@   ensures [C01:singleton-is-item] (len(s.values) == 1 && !s.keepSingletons) ==> result == rvof(s.values[0])
+//@   ensures [C01:keep-array-marker] (len(s.values) == 1 && s.keepSingletons) ==> (kind(result) == 23 && rvlen(result) == 1)
+//@   ensures [C01:several-items] len(s.values) > 1 ==> (kind(result) == 23 && rvlen(result) == len(s.values))
+//@   ensures valid(result) ==> canif(result)
+//@   assigns nothing
+// asSequence recognises a *sequence (or an addressable sequence) behind a reflect.Value by its type (reflect type
+// identity: not modelled, trusted)
+//@ func asSequence
+//@   props C01 C09 C10
+//@   ensures r1 ==> (r0 != nil && valid(v))
+//@   ensures !r1 ==> r0 == nil
+//@   ensures !valid(v) ==> !r1
+//@   ensures isSeq(v) ==> (r1 && r0 == dyn(ifaceof(v), "*sequence"))
+//@   ensures arrKind(kind(res(v))) ==> !r1
+//@   assigns nothing
+//@   trusted
+
+// evalPath: an empty path is 'no value'; the context is wrapped into a one-item list exactly when the path starts with
+// a variable ($, $$, $x, also under a predicate) or the context is not an array - otherwise the steps map over the
+// context array's members; every step is applied in order through evalPathStep (an array constructor in first position
+// is evaluated as a whole) with the last-step flag set on the last one only; 'no value' or an empty array from a step
+// ends the path with 'no value'; the keep-array marker is set on the result sequence.
+//@ pred startsWithVariable(n *jparse.PathNode) = typeis(n.Steps[0], "*jparse.VariableNode") || (typeis(n.Steps[0], "*jparse.PredicateNode") && typeis(dyn(n.Steps[0], "*jparse.PredicateNode").Expr, "*jparse.VariableNode"))
+//@ pred isSeq(v reflect.Value) = valid(v) && canif(v) && typeis(ifaceof(v), "*sequence") && dyn(ifaceof(v), "*sequence") != nil
+//@ pred stepInput(v reflect.Value) = valid(v) && canif(v) && (isSeq(v) || arrKind(kind(res(v))))
+//@ func evalPath
+//@   props C01 C09
+//@   opaque-arith
+//@   requires node != nil && ifaceable(data)
+//@   preserves node
+//@   ensures [C01:empty-path] len(node.Steps) == 0 ==> (r1 == nil && !valid(r0))
+//@   ensures [C01:error-propagates] r1 != nil ==> !valid(r0)
+//@   ensures [C01:value-is-usable] (r1 == nil && valid(r0)) ==> canif(r0)
+//@   atif[C01:anchored-at-variable] "isVar" iff startsWithVariable(node)
+//@   atif[C01:non-array-context-is-one-item] "jtypes.IsArray(data)" iff arrKind(kind(res(data)))
+//@   atcall[C01:steps-in-order] evalPathStep#0 requires callee_step == step && callee_data == output && callee_lastStep == (i == len(node.Steps) - 1)
+//@   atcall[C01:leading-constructor-as-a-whole] eval#0 requires callee_node == step && callee_input == output && i == 0
+//@   loop 0 invariant -1 <= $i0 && stepInput(output) && lastIndex == len(node.Steps) - 1
+
+// evalOverArray / evalOverSequence: the step is evaluated once per member, in order, with the member as context;
+// absent results are dropped; an error stops the evaluation.
+//@ func evalOverArray
+//@   props C01 C09
+//@   precise-append
+//@   requires nn(node) && arrKind(kind(res(data))) && canif(data)
+//@   ensures [C01:error-propagates] r1 != nil ==> (len(r0) == 0 && r1 == ret("eval#0", 1))
+//@   ensures [C01:at-most-one-result-per-item] r1 == nil ==> len(r0) <= rvlen(res(data))
+//@   ensures [C01:present-results-only] r1 == nil ==> (forall k in [0, len(r0)): (valid(r0[k]) && canif(r0[k])))
+//@   assigns heap
+//@   atcall[C01:item-is-context] eval#0 requires callee_node == node && callee_input == at(res(data), i)
+//@   atif[C01:absent-dropped] "res.IsValid()" iff valid(ret("eval#0", 0))
+//@   loop 0 invariant 0 <= i && i <= N && N == rvlen(data) && data == res(old(data)) && len(results) <= i && (results == nil || (local(results) && cap(results) >= N))
+//@   loop 0 invariant forall k in [0, len(results)): (valid(results[k]) && canif(results[k]))
+
+//@ func evalOverSequence
+//@   props C01 C09
+//@   precise-append
+//@   requires nn(node) && seq != nil
+//@   preserves seq
+//@   ensures [C01:error-propagates] r1 != nil ==> (len(r0) == 0 && r1 == ret("eval#0", 1))
+//@   ensures [C01:present-results-only] r1 == nil ==> (forall k in [0, len(r0)): (valid(r0[k]) && canif(r0[k])))
+//@   assigns heap
+//@   atcall[C01:item-is-context] eval#0 requires callee_node == node && callee_input == rvof(seq.values[i])
+//@   atif[C01:absent-dropped] "res.IsValid()" iff valid(ret("eval#0", 0))
+//@   loop 0 invariant 0 <= i && i <= N && N == len(seq.values) && len(results) <= i && (results == nil || (local(results) && cap(results) >= N))
+//@   loop 0 invariant forall k in [0, len(results)): (valid(results[k]) && canif(results[k]))
+
+// evalPathStep: maps the step over the context items (a sequence or an array), then flattens array-valued results
+// one level into the result sequence - arrayify, not a deep flatten - keeping array-constructor results as units; a
+// last step that produced exactly one array returns it as is; no items is 'no value'.
+//@ func evalPathStep
+//@   props C01 C09
+//@   opaque-arith
+//@   requires nn(step) && valid(data) && canif(data)
+//@   requires isSeq(data) || arrKind(kind(res(data)))
+//@   ensures [C01:error-propagates] r1 != nil ==> !valid(r0)
+//@   ensures [C01:value-is-usable] (r1 == nil && valid(r0)) ==> stepInput(r0)
+//@   assigns heap
+//@   atcall[C01:maps-over-sequence-items] evalOverSequence#0 requires callee_node == step && callee_seq == ret("asSequence#0", 0)
+//@   atcall[C01:maps-over-array-items] evalOverArray#0 requires callee_node == step && callee_data == data
+//@   atcall[C01:flatten-one-level] arrayify#0 requires callee_v == v
+//@   atif[C01:constructor-kept-whole] "isCons" iff typeis(step, "*jparse.ArrayNode")
+//@   atif[C01:non-array-kept-whole] "jtypes.IsArray(v)" iff arrKind(kind(res(v)))
+//@   atif[C01:last-step-single-array] "jtypes.IsArray(results[0])" iff arrKind(kind(res(results[0])))
+//@   atif[C01:no-items-no-value] "resultSequence.Len() == 0" iff len(resultSequence.values) == 0
+//@   loop 0 invariant -1 <= $i0 && resultSequence != nil
+//@   loop 0 invariant forall k in [0, len(results)): (valid(results[k]) && canif(results[k]))
+//@   loop 1 invariant 0 <= i && i <= N && N == rvlen(v) && arrKind(kind(v)) && canif(v) && resultSequence != nil && -1 <= $i0
+//@   loop 1 invariant forall k in [0, len(results)): (valid(results[k]) && canif(results[k]))
 
 // --- C02: predicates -------------------------------------------------------------------------------------------
 // Statement: e[p] evaluates p once per item of e's value (a non-array value counting as a one-item list) with that
